@@ -82,6 +82,27 @@ class Unrelated:
         self.zzz = 1
 
 
+class LyingLen:
+    """A sized iterable whose __len__ disagrees with what iteration yields."""
+
+    def __init__(self, items, claims):
+        self._items, self._claims = list(items), claims
+
+    def __len__(self):
+        return self._claims
+
+    def __iter__(self):
+        return iter(self._items)
+
+    def __repr__(self):
+        return f"LyingLen({self._items!r}, claims={self._claims})"
+
+
+class AttrBag(dict):
+    """A mapping whose attribute access never fails (a catch-all __getattr__)."""
+    __getattr__ = dict.get
+
+
 def junk_pool(env):
     utc = datetime.timezone.utc
     D1 = env.obj("D1")
@@ -95,6 +116,8 @@ def junk_pool(env):
         {}, {"a": 1}, {"x": 1}, {"x": "1", "y": 2}, {"x": 1, "y": "s", "zz": 0}, {"a": "1", "b": "2"}, {1: 2}, {"v": 1, "nxt": {"v": "2"}},
         decimal.Decimal("1.5"), datetime.date(2020, 1, 1), datetime.datetime(2020, 1, 1, tzinfo=utc), datetime.timedelta(days=8),
         uuid.UUID(int=5), D1(a=1, b="s"), D1(a="1", b=2), Unrelated(), object(), iter([1, 2]), (x for x in ["a"]),
+        # (appended: ids of the entries above are part of recorded cases)
+        LyingLen(["1", "2"], 3), LyingLen(["1", "2", "3"], 2), LyingLen([("a", "1")], 2), LyingLen(["7"], 0), AttrBag(a="1", b="2"),
     ]
 
 
@@ -126,6 +149,40 @@ def corruptions(w, rng):
         if isinstance(w, str):
             out += [w[:-1], w + "Z", w.upper()]
     return out
+
+
+def raw_instance(T, w, env, defs, depth=0):
+    """The wire value w of type T with every class position (outermost ones) turned into an instance of exactly that
+    class whose members still hold wire values -- what a caller has who built the object from unvalidated data.
+    Returns (value, replaced?)."""
+    k = T["k"]
+    while k in ("newtype", "alias", "salias", "final", "annotated"):
+        T = T["a"]; k = T["k"]
+    if depth > 4 or w is None:
+        return w, False
+    if k == "cls":
+        d = defs[T["c"]]
+        if d["flavour"].startswith("typeddict") or not isinstance(w, dict):
+            return w, False
+        init = {f[0] for f in d["fields"] if f[1]["k"] not in ("classvar", "noinit")}
+        try:
+            return env.obj(T["c"])(**{a: b for a, b in w.items() if a in init}), True
+        except Exception:
+            return w, False
+    if k == "coll" and isinstance(w, list):
+        xs = [raw_instance(T["a"], x, env, defs, depth + 1) for x in w]
+        return [x for x, _ in xs], any(r for _, r in xs)
+    if k == "map" and isinstance(w, dict):
+        xs = {a: raw_instance(T["va"], b, env, defs, depth + 1) for a, b in w.items()}
+        return {a: x for a, (x, _) in xs.items()}, any(r for _, r in xs.values())
+    if k == "tup" and isinstance(w, list) and len(w) == len(T["xs"]):
+        xs = [raw_instance(t, x, env, defs, depth + 1) for t, x in zip(T["xs"], w)]
+        return [x for x, _ in xs], any(r for _, r in xs)
+    if k == "union":
+        nn = [m for m in T["xs"] if not (m["k"] == "prim" and m["n"] == "NoneType")]
+        if len(nn) == 1:
+            return raw_instance(nn[0], w, env, defs, depth + 1)
+    return w, False
 
 
 def fresh(v):
